@@ -287,8 +287,10 @@ func c15Gen(t *rapid.T) C15Case {
 	for i := 0; i < nNames; i++ {
 		c.Names = append(c.Names, fmt.Sprintf("ctr-%d", i))
 	}
-	if nNames > 0 && rapid.IntRange(0, 5).Draw(t, "oddname") == 0 {
-		c.Names[0] = rapid.SampledFrom([]string{"", "a b", "web_1", "x/y"}).Draw(t, "name")
+	if nNames > 0 && rapid.IntRange(0, 2).Draw(t, "oddname") == 0 {
+		// The container column prints the label "container", which a pipeline may have rewritten
+		// (| logfmt, | label_format container=...): it is any text, not only a Docker name.
+		c.Names[rapid.IntRange(0, nNames-1).Draw(t, "oddname-index")] = rapid.SampledFrom([]string{"", "a b", "web_1", "x/y", "cpu 50%", "100%done", "%s", "%d%%", "%!v(MISSING)", "ünï", "{}", "tab\there", `back\slash`, "quote\"d"}).Draw(t, "name")
 	}
 	nEntries := rapid.IntRange(0, 12).Draw(t, "entries")
 	if nNames >= 7 || rapid.IntRange(0, 3).Draw(t, "many") == 0 {
